@@ -36,6 +36,26 @@ CHECKS = {
          "Every ordered pair of non-degenerate directed segments on a 5x5/6x6 integer grid (and a scaled+translated copy) is intersected by the robust strategy and compared with the exact rational result: classification none/point/overlap, endpoint intersections bit-identical, proper crossings within 8 ulps, overlap endpoints exact; the non-robust strategy must agree on HasIntersection. +-1 ulp perturbations of T-junction / touching / collinear configurations are checked for classification.",
          "Bounded: grids as listed. Trusted: math/big, ref.SegSeg.",
          "DESIGN.md section 2, C12"),
+ "C13": ("exploration",
+         "bounded exhaustive enumeration of point sequences (incl. the >50-point path by padding) against an exact monotone-chain hull",
+         "Every sequence of up to 5/6 points on a 3x3 grid (order matters to the scan), every set of <=6 points on a 4x4 grid (thorough), each also padded to 51/52/60 points three ways, and a 64-point block with every pair of outliers from a surrounding half-integer ring, in four layouts with unique extra-ordinate tags, through ConvexHull and ConvexHullFlat; compared with the strict convex hull computed in rational arithmetic: result kind, exact vertex set, each vertex bit-equal to an input coordinate, closed ring of one fixed orientation without collinear vertices, input unmodified incl. spare capacity.",
+         "Bounded: grids and sizes as listed. Trusted: math/big, ref.Hull.",
+         "DESIGN.md section 2, C13"),
+ "C14": ("exploration",
+         "bounded exhaustive enumeration of point sets, polylines, simple rings and valid polygons against exact rational centroids and areas",
+         "Point sets, polylines and pairs of polylines on a 4x4 grid; every simple ring of 3..4/5 vertices on the 4x4 grid in both directions and from every start vertex; rectangles and lattice triangles with 0..1/2 holes strictly inside, in every ring-direction combination, and pairs of disjoint polygons; zero-area polygons; three offsets and four layouts. Centroids are compared with the rational mean / length-weighted / area-weighted centroid within a forward error bound, IsRingCounterClockwise with the sign of the exact area, SignedArea with the exact area.",
+         "Bounded: grids as listed; valid polygons only. Trusted: math/big.",
+         "DESIGN.md section 2, C14"),
+ "C15": ("exploration",
+         "bounded exhaustive enumeration of points/segments on 2D and 3D integer grids against exact rational squared distances",
+         "Every point x segment and every pair of segments (degenerate ones included) on the 4x4 grid, scaled and translated copies, point-to-linestring for all polylines of <=3 vertices, perpendicular distances; in 3D every pair of segments and every point x segment with endpoints in {0,1}x{0,1,2}^2 / {0,1,2}^3 plus scaled copies and NaN-Z cases. Results must be within 1e-9 x scale of the square root of the exact squared distance (3D by exact minimisation over the clamped parameter square), never NaN, and identical under argument swaps and reversals.",
+         "Bounded: grids as listed. Trusted: math/big.",
+         "DESIGN.md section 2, C15"),
+ "C20": ("exploration",
+         "bounded exhaustive enumeration of coordinate sequences x thresholds against exact rational point-segment distances",
+         "Every sequence of up to 5/6 points on a 3x3 grid, 4/5 on a 4x4 grid and 9/11 over a 3-point alphabet, plus long straight and zig-zag runs with each single point displaced, for 8 thresholds and strides 2..5 with NaN extra ordinates: indexes strictly increasing incl. first and last, every omitted point exactly within the threshold of the segment between its nearest retained neighbours (exactly on it for threshold 0), and a second pass removes nothing.",
+         "Bounded: lengths and grids as listed. Trusted: math/big.",
+         "DESIGN.md section 2, C20"),
  "C03": ("fault_enumeration",
          "exhaustive enumeration of reader-split and writer-fault schedules (deviation-bounded choice-sequence DFS on the real codec) plus exhaustive input corpus against an independent reference encoder",
          "Every corpus geometry (shape universe in 4 layouts + collections) in WKB, WKB-NaN and EWKB, both byte orders, six SRIDs and a special-float sweep is marshalled and compared byte for byte with an independent encoder, decoded and compared with the model (carve-outs computed), through Marshal/Unmarshal, Read/Write, hex and all SQL wrappers (incl. wrong-type and non-[]byte errors). Read is then driven over a fault-injecting reader on enc(g1)||enc(g2): every answer sequence with <=1 (quick) / <=2 (thorough) non-default answers and every chunk composition of encodings <=22 bytes; Write over a fault-injecting writer with a fault at every Write call. Each schedule must yield g1, g2, error and exact stream positions / a prefix of the reference bytes and the injected error.",
